@@ -714,6 +714,64 @@ pub fn vec_op<'b, P: Pair>(ctx: &mut Ctx, bump: &'b Bump, v: &mut VSlot<'b, P::A
                     }
                 },
             );
+            ctx.both(
+                "AsMut<[T]> / BorrowMut<[T]> / AsMut<Vec> / IndexMut<range> / for x in &mut vec",
+                || {
+                    use std::borrow::BorrowMut;
+                    if let Some(x) = AsMut::<[P::A]>::as_mut(&mut *s).last_mut() {
+                        x.set_val(7);
+                    }
+                    if let Some(x) = BorrowMut::<[P::A]>::borrow_mut(&mut *s).first_mut() {
+                        x.set_val(8);
+                    }
+                    let whole: &mut BVec<P::A> = AsMut::<BVec<P::A>>::as_mut(&mut *s);
+                    let n = whole.len();
+                    for x in &mut whole[n / 2..] {
+                        let v = (x.val() + 2) % 12;
+                        x.set_val(v);
+                    }
+                    let mut k = 0u32;
+                    for x in &mut *s {
+                        k += x.val();
+                    }
+                    let same: &BVec<P::A> = AsRef::<BVec<P::A>>::as_ref(&*s);
+                    (k, same.len())
+                },
+                || {
+                    use std::borrow::BorrowMut;
+                    if let Some(x) = AsMut::<[P::B]>::as_mut(&mut *t).last_mut() {
+                        x.set_val(7);
+                    }
+                    if let Some(x) = BorrowMut::<[P::B]>::borrow_mut(&mut *t).first_mut() {
+                        x.set_val(8);
+                    }
+                    let whole: &mut Vec<P::B> = AsMut::<Vec<P::B>>::as_mut(&mut *t);
+                    let n = whole.len();
+                    for x in &mut whole[n / 2..] {
+                        let v = (x.val() + 2) % 12;
+                        x.set_val(v);
+                    }
+                    let mut k = 0u32;
+                    for x in &mut *t {
+                        k += x.val();
+                    }
+                    let same: &Vec<P::B> = AsRef::<Vec<P::B>>::as_ref(&*t);
+                    (k, same.len())
+                },
+            );
+            if c & 0x20 != 0 {
+                // take the vector apart into (pointer, length, capacity) and rebuild it: same elements, nothing dropped
+                let (sp, sl, sc) = (s.as_mut_ptr(), s.len(), s.capacity());
+                let placeholder = BVec::new_in(bump);
+                std::mem::forget(std::mem::replace(s, placeholder));
+                *s = unsafe { BVec::from_raw_parts_in(sp, sl, sc, bump) };
+                if s.len() != sl || s.capacity() != sc || s.as_ptr() != sp as *const P::A {
+                    ctx.v("C13", "Vec::from_raw_parts_in does not rebuild the vector it was given the parts of".into());
+                }
+                if vals(s.as_slice()) != vals(t.as_slice()) {
+                    ctx.v("C13", "a vector rebuilt with from_raw_parts_in holds different elements".into());
+                }
+            }
             ctx.both("sort_by_key (slice method through DerefMut)", || s.sort_by_key(|x| x.val()), || t.sort_by_key(|x| x.val()));
             {
                 // the vector's own comparison and hashing impls, against a second arena vector
